@@ -14,6 +14,7 @@ import (
 	"github.com/tableauio/tableau/internal/x/xproto"
 	"github.com/tableauio/tableau/options"
 	"github.com/tableauio/tableau/proto/tableaupb"
+	"google.golang.org/protobuf/proto"
 	"google.golang.org/protobuf/reflect/protoreflect"
 )
 
@@ -41,3 +42,12 @@ func RecordedBookOptions(header *options.HeaderOption, bookOpts *tableaupb.Workb
 func ParseFieldValue(fd protoreflect.FieldDescriptor, rawValue string, locationName string) (v protoreflect.Value, present bool, err error) {
 	return xproto.ParseFieldValue(fd, rawValue, locationName)
 }
+
+// PatchMessage patches src into dst (xproto.PatchMessage).
+func PatchMessage(dst, src proto.Message) error { return xproto.PatchMessage(dst, src) }
+
+// Merge merges src into dst (xproto.Merge).
+func Merge(dst, src proto.Message) error { return xproto.Merge(dst, src) }
+
+// CheckMapDuplicateKey is xproto.CheckMapDuplicateKey.
+func CheckMapDuplicateKey(dst, src proto.Message) error { return xproto.CheckMapDuplicateKey(dst, src) }
